@@ -300,6 +300,7 @@ def _numeric_ops():
     I_ = sparse.identity(p1, p1, p1, parameters=par)
     K = laplace.double_layer(p1, p1, p1, parameters=par)
     second = 0.5 * I_ - K                                                   # well conditioned second kind (1/2 I + K has the constants as kernel)
+    _numeric_ops.extra = (K, I_)
     return g, p1, dp0, V, Vh, second
 
 
@@ -310,6 +311,7 @@ def replay_numeric(which):
 
     warnings.simplefilter("ignore")
     g, p1, dp0, V, Vh, second = _numeric_ops()
+    K, I_ = _numeric_ops.extra
     rng = np.random.RandomState(1)
     f0 = api.GridFunction(dp0, coefficients=rng.randn(dp0.global_dof_count))
     f1 = api.GridFunction(p1, coefficients=rng.randn(p1.global_dof_count))
@@ -323,6 +325,16 @@ def replay_numeric(which):
         errs["lu real operator, complex rhs"] = Z.relerr(lu(V, V * fc).coefficients, fc.coefficients)
         errs["lu real operator, complex rhs, precomputed factors"] = Z.relerr(lu(V, V * fc, lu_factor=compute_lu_factors(V)).coefficients, fc.coefficients)
         errs["lu(second, second f)"] = Z.relerr(lu(second, second * f1).coefficients, f1.coefficients)
+        # "for every invertible operator": the same second-kind operator with the dense summand first (sum operators convert to dense differently depending on the
+        # order of their summands), solved repeatedly and with factors computed between two direct solves - the operator must not change by being solved
+        second_b = K - 0.5 * I_
+        for rep in range(3):
+            errs["lu(K - I/2, (K - I/2) f), call %d" % (rep + 1)] = Z.relerr(lu(second_b, second_b * f1).coefficients, f1.coefficients)
+            if rep == 1:
+                fac_b = compute_lu_factors(second_b)
+        errs["lu(K - I/2) with factors computed between two direct solves"] = Z.relerr(lu(second_b, second_b * f1, lu_factor=fac_b).coefficients, f1.coefficients)
+        xg, info_g = gmres(second_b, second_b * f1, tol=1e-10)
+        errs["gmres(K - I/2) after direct solves"] = 0.0 if (info_g == 0 and Z.relerr(xg.coefficients, f1.coefficients) < 1e-7) else max(1.0, Z.relerr(xg.coefficients, f1.coefficients))
         # right-hand sides that were inspected before the solve, for an operator whose range and dual_to_range have different dof counts
         from bempp_cl.api.operators.boundary import laplace as _lap
 
